@@ -189,7 +189,10 @@ func (c07) Run(t *testing.T, scenario any, job *Job, res *Result) {
 	srv, err := rsyncd.NewServer([]rsyncd.Module{
 		{Name: "rw", Path: rwDir, Writable: true},
 		{Name: "ro", Path: roDir},
-		{Name: "rofs", FS: os.DirFS(ro2)},
+		// an fs.FS that is itself confined to the directory: os.DirFS follows
+		// symlinks anywhere, and a module tree with a link to "/" then makes a
+		// recursive download walk (and checksum) the whole machine
+		{Name: "rofs", FS: mustRootFS(ro2)},
 		{Name: "r", Path: rwDir, Writable: true}, // a writable module whose name is a prefix of the read-only ones
 	}, sopts...)
 	if err != nil {
